@@ -1051,8 +1051,27 @@ func (b *BaseStore) replicationLoadComplete(ctx context.Context, logs []ipfslog.
 
 	// only store heads that has been verified and merges
 	heads := oplog.Heads()
+	cachedHeads := heads.Slice()
 
-	headsBytes, err := json.Marshal(heads.Slice())
+	// a log loaded with a limit does not hold everything the cached heads lead
+	// to: the cached heads it has no entry for are kept, so that what they lead
+	// to can still be loaded later
+	if previousBytes, err := b.Cache().Get(ctx, datastore.NewKey("_remoteHeads")); err == nil {
+		var previous []*entry.Entry
+		if err := json.Unmarshal(previousBytes, &previous); err == nil {
+			for _, h := range previous {
+				if h == nil || !h.GetHash().Defined() {
+					continue
+				}
+
+				if _, held := oplog.Get(h.GetHash()); !held {
+					cachedHeads = append(cachedHeads, h)
+				}
+			}
+		}
+	}
+
+	headsBytes, err := json.Marshal(cachedHeads)
 	if err != nil {
 		b.Logger().Error("unable to serialize heads cache", zap.Error(err))
 		return
